@@ -279,6 +279,10 @@ class SimPool:
         # copy=False models a THREAD pool (multiprocess.pool.ThreadPool, ThreadPoolExecutor.map):
         # the callable, its arguments and results are shared objects, not pickled copies
         self.copy = copy
+        # serializer="pickle" models the standard library's process pools (multiprocessing.Pool,
+        # ProcessPoolExecutor), which pickle tasks with pickle rather than dill
+        import pickle as _pickle
+        self._ser = _pickle if kw.pop("serializer", "dill") == "pickle" else dill
         self.n = int(processes) if processes else (os.cpu_count() or 1)
         if self.n < 1:
             raise ValueError("Number of processes must be at least 1")
@@ -370,15 +374,15 @@ class SimPool:
                 sim.step("task-start", (job.no, i))
                 ok = True
                 try:
-                    func = dill.loads(fb) if self.copy else fb
+                    func = self._ser.loads(fb) if self.copy else fb
                     res = []
                     for ab in chunk:
-                        arg = dill.loads(ab) if self.copy else ab
+                        arg = self._ser.loads(ab) if self.copy else ab
                         hook = sim.hooks.get("task")
                         if hook is not None:
                             hook(job.no, i)  # F6: may raise
                         res.append(func(arg))
-                    payload = dill.dumps(res) if self.copy else res
+                    payload = self._ser.dumps(res) if self.copy else res
                 except SimAbort:
                     raise
                 except Exception as e:
@@ -400,12 +404,12 @@ class SimPool:
     def _submit(self, kind, func, iterable, chunksize):
         self._check_running()
         items = list(iterable)
-        fb = dill.dumps(func) if self.copy else func
+        fb = self._ser.dumps(func) if self.copy else func
         chunks = [items[k:k + chunksize] for k in range(0, len(items), chunksize)]
         job = _Job(self, kind, len(chunks))
         job.chunksize = chunksize
         for i, ch in enumerate(chunks):
-            self.tasks.append((job, i, fb, [dill.dumps(x) if self.copy else x for x in ch]))
+            self.tasks.append((job, i, fb, [self._ser.dumps(x) if self.copy else x for x in ch]))
         self.sim.step("submit", (kind, job.no, len(chunks)))
         return job
 
@@ -425,7 +429,7 @@ class SimPool:
             raise job.first_failure
         out = []
         for i in range(job.n):
-            out.extend(dill.loads(job.results[i][1]) if self.copy else job.results[i][1])
+            out.extend(self._ser.loads(job.results[i][1]) if self.copy else job.results[i][1])
         self.sim.emit("map-done", job.no)
         return out
 
@@ -459,7 +463,7 @@ class SimPool:
             pos += 1
             if not ok:
                 raise payload
-            yield from (dill.loads(payload) if self.copy else payload)
+            yield from (self._ser.loads(payload) if self.copy else payload)
 
     def apply(self, func, args=(), kwds=None):
         kwds = kwds or {}
